@@ -116,7 +116,7 @@ def _imtlg(case, sig):
     # magnitude of the terms summed in p_i: sum_k |w_k| |g_k . g_i| / |g_i|
     mag = (np.abs(Jn @ Jn.T) @ np.abs(w)) / d
     tol = c2 * float(mag.max()) + 1e-300
-    if float(p.max() - p.min()) > tol:
+    if not (float(p.max() - p.min()) <= tol):  # (NaN-proof)
         return fail(sig, nontrivial, "C17.imtlg", "the projections of A(J) onto the row directions are not all equal", p,
                     "all equal", weights=w, tol=tol, cond=cond)
     return ok(sig, nontrivial)
@@ -145,7 +145,7 @@ def _config(case, sig):
     c = (Jn @ out) / (d * nout)  # cosines
     s = float(c @ p) / float(p @ p)  # best positive factor: c = s p
     tol = 64 * (m + n) * condU * eps * abs(s) * float(np.linalg.norm(p)) + 1e-300
-    if s <= 0 or float(np.abs(c - s * p).max()) > tol:
+    if not (s > 0) or not (float(np.abs(c - s * p).max()) <= tol):
         what = ("the cosines between A(J) and the rows are not all equal and positive" if pv is None else
                 "the cosines between A(J) and the rows are not proportional (positive factor) to the preference vector")
         return fail(sig, nontrivial, key, what, c, s * p, pref=p, tol=tol, condU=condU)
@@ -153,7 +153,7 @@ def _config(case, sig):
         return fail(sig, nontrivial, key, "a row with positive preference has a non-positive cosine", c, "positive")
     proj = float((Jn @ out).sum()) / nout  # sum of the projections of the rows on the direction of A(J)
     tol_len = 64 * (m + n) * eps * float(d.sum()) + 1e-300
-    if abs(nout - proj) > tol_len:
+    if not (abs(nout - proj) <= tol_len):
         return fail(sig, nontrivial, key, "|A(J)| differs from the sum of the projections of the rows on its direction",
                     nout, proj)
     return ok(sig, nontrivial)
@@ -185,11 +185,11 @@ def _amtl(case, sig):
                     "sigma_min(J)", RRt, smin**2 * np.eye(m), cond=cond)
     wn = float(np.abs(w).sum())
     tol = c2 * smin * wn + 1e-300
-    if float(np.abs(out - w @ R).max()) > tol:
+    if not (float(np.abs(out - w @ R).max()) <= tol):
         return fail(sig, nontrivial, "C17.amtl", "A(J) is not the preference-weighted combination of the re-balanced rows",
                     out, w @ R, pref=w)
     ref = smin * (w @ (Uj @ Vt))
-    if float(np.abs(out - ref).max()) > tol:
+    if not (float(np.abs(out - ref).max()) <= tol):
         return fail(sig, nontrivial, "C17.amtl", "A(J) differs from sigma_min * w^T (U V^T)", out, ref, pref=w, cond=cond)
     return ok(sig, nontrivial)
 
